@@ -7,6 +7,16 @@ use read_fonts::{FontRef, types::Tag};
 use serde_json::json;
 use std::collections::BTreeMap;
 use vh::*;
+use std::panic::AssertUnwindSafe;
+use std::sync::Arc;
+use write_fonts::tables::{
+    gasp::{Gasp, GaspRange, GaspRangeBehavior},
+    head::Head,
+    hhea::Hhea,
+    maxp::Maxp,
+    name::{Name, NameRecord},
+};
+use write_fonts::types::{FWord, NameId, UfWord};
 use write_fonts::FontBuilder;
 
 const HEAD: u32 = u32::from_be_bytes(*b"head");
@@ -33,6 +43,158 @@ enum Op {
     Add(u32, Vec<u8>),
     /// copy_missing_tables(FontRef::new(bytes)) — bytes always open successfully
     Copy(Vec<u8>),
+    /// add_table(&pool.tables[i]) — a typed table whose compilation succeeds or fails
+    Table(usize),
+}
+
+/// Typed top-level tables handed to `FontBuilder::add_table`.
+#[derive(Clone, Debug)]
+enum Typed {
+    Gasp(Gasp),
+    Maxp(Maxp),
+    Name(Name),
+    Head(Head),
+    Hhea(Hhea),
+}
+
+impl Typed {
+    fn tag(&self) -> u32 {
+        u32::from_be_bytes(*match self {
+            Typed::Gasp(_) => b"gasp",
+            Typed::Maxp(_) => b"maxp",
+            Typed::Name(_) => b"name",
+            Typed::Head(_) => b"head",
+            Typed::Hhea(_) => b"hhea",
+        })
+    }
+    /// what `dump_table` says about this table, asked independently of any builder
+    fn dump(&self) -> Result<Vec<u8>, String> {
+        let r = catch(AssertUnwindSafe(|| {
+            let r = match self {
+                Typed::Gasp(t) => write_fonts::dump_table(t),
+                Typed::Maxp(t) => write_fonts::dump_table(t),
+                Typed::Name(t) => write_fonts::dump_table(t),
+                Typed::Head(t) => write_fonts::dump_table(t),
+                Typed::Hhea(t) => write_fonts::dump_table(t),
+            };
+            r.map_err(|e| match e {
+                write_fonts::error::Error::ValidationFailed(_) => "validation".to_string(),
+                write_fonts::error::Error::PackingFailed(_) => "packing".to_string(),
+            })
+        }));
+        match r {
+            Ok(x) => x,
+            Err(p) => Err(format!("panic: {}", p)),
+        }
+    }
+    fn add_to(&self, b: &mut FontBuilder) -> bool {
+        match self {
+            Typed::Gasp(t) => b.add_table(t).is_ok(),
+            Typed::Maxp(t) => b.add_table(t).is_ok(),
+            Typed::Name(t) => b.add_table(t).is_ok(),
+            Typed::Head(t) => b.add_table(t).is_ok(),
+            Typed::Hhea(t) => b.add_table(t).is_ok(),
+        }
+    }
+}
+
+/// Typed tables generated once per run (some are large: 65 536-element arrays), referenced by index.
+struct Pool {
+    tables: Vec<Typed>,
+    /// `dump_table` outcome per table: Ok(bytes) or Err(kind)
+    dumps: Vec<Result<Vec<u8>, String>>,
+    what: Vec<&'static str>,
+}
+
+fn name_rec(platform: u16, enc: u16, lang: u16, id: u16, s: String) -> NameRecord {
+    NameRecord::new(platform, enc, lang, NameId::new(id), s.into())
+}
+
+fn make_pool(rng: &mut Rng, st: &mut Stats) -> Pool {
+    let mut cand: Vec<(Typed, &'static str)> = vec![];
+    let range = |rng: &mut Rng| GaspRange::new(rng.next_u32() as u16, GaspRangeBehavior::from_bits_truncate(rng.below(16) as u16));
+    for n in [0usize, 1, 1, 2, 3] {
+        let r: Vec<GaspRange> = (0..n).map(|_| range(rng)).collect();
+        cand.push((Typed::Gasp(Gasp::new(rng.below(2) as u16, n as u16, r)), "gasp.ok"));
+    }
+    for n in [65_536usize, 65_537, 70_000 + rng.below(100) as usize] {
+        let r: Vec<GaspRange> = (0..n).map(|_| range(rng)).collect();
+        cand.push((Typed::Gasp(Gasp::new(1, 0, r)), "gasp.too_many_ranges"));
+    }
+    for _ in 0..3 {
+        cand.push((Typed::Maxp(Maxp::new(rng.next_u32() as u16)), "maxp.ok_v0_5"));
+        let mut full = Maxp::new(rng.next_u32() as u16);
+        let v = |rng: &mut Rng| Some(rng.below(300) as u16);
+        full.max_points = v(rng);
+        full.max_contours = v(rng);
+        full.max_composite_points = v(rng);
+        full.max_composite_contours = v(rng);
+        full.max_zones = v(rng);
+        full.max_twilight_points = v(rng);
+        full.max_storage = v(rng);
+        full.max_function_defs = v(rng);
+        full.max_instruction_defs = v(rng);
+        full.max_stack_elements = v(rng);
+        full.max_size_of_instructions = v(rng);
+        full.max_component_elements = v(rng);
+        full.max_component_depth = v(rng);
+        cand.push((Typed::Maxp(full.clone()), "maxp.ok_v1_0"));
+        // version 1.0 with a required field missing
+        let mut bad = full;
+        match rng.below(4) {
+            0 => bad.max_points = None,
+            1 => bad.max_zones = None,
+            2 => bad.max_component_depth = None,
+            _ => {
+                bad.max_contours = None;
+                bad.max_storage = None;
+            }
+        }
+        cand.push((Typed::Maxp(bad), "maxp.missing_field_for_version"));
+    }
+    let word = |rng: &mut Rng| -> String { (0..1 + rng.below(4)).map(|_| (b'a' + rng.below(26) as u8) as char).collect() };
+    cand.push((Typed::Name(Name::new(vec![])), "name.ok"));
+    cand.push((Typed::Name(Name::new(vec![name_rec(3, 1, 0x409, 1, word(rng))])), "name.ok"));
+    cand.push((Typed::Name(Name::new(vec![name_rec(1, 0, 0, 1, word(rng)), name_rec(3, 1, 0x409, 2, word(rng))])), "name.ok"));
+    cand.push((Typed::Name(Name::new(vec![name_rec(3, 1, 0x409, 2, word(rng)), name_rec(3, 1, 0x409, 1, word(rng))])), "name.unsorted_records"));
+    cand.push((Typed::Name(Name::new(vec![name_rec(3, 1, 0x409, 4, word(rng)), name_rec(3, 1, 0x409, 4, word(rng))])), "name.duplicate_records"));
+    cand.push((Typed::Name(Name::new(vec![name_rec(7, 9, 0, 1, word(rng))])), "name.unknown_encoding"));
+    cand.push((Typed::Name(Name::new(vec![name_rec(1, 0, 0, 1, "\u{4f60}\u{597d}".to_string())])), "name.not_mac_roman"));
+    // string storage beyond the reach of 16-bit offsets: offset overflow while packing
+    let long = |c: char| -> String { std::iter::repeat(c).take(20_000).collect() };
+    cand.push((Typed::Name(Name::new(vec![name_rec(3, 1, 0x409, 1, long('x')), name_rec(3, 1, 0x409, 2, long('y')), name_rec(3, 1, 0x409, 3, long('z'))])), "name.offset_overflow"));
+    for _ in 0..3 {
+        let mut h = Head::default();
+        h.units_per_em = rng.range(16, 16384) as u16;
+        h.flags = rng.next_u32() as u16;
+        h.checksum_adjustment = if rng.chance(1, 2) { rng.next_u32() } else { 0 };
+        h.x_min = rng.next_u32() as i16;
+        h.index_to_loc_format = rng.below(2) as i16;
+        cand.push((Typed::Head(h), "head.ok"));
+        let mut hh = Hhea::default();
+        hh.ascender = FWord::new(rng.next_u32() as i16);
+        hh.descender = FWord::new(rng.next_u32() as i16);
+        hh.advance_width_max = UfWord::new(rng.next_u32() as u16);
+        hh.number_of_h_metrics = rng.next_u32() as u16;
+        cand.push((Typed::Hhea(hh), "hhea.ok"));
+    }
+    let mut pool = Pool { tables: vec![], dumps: vec![], what: vec![] };
+    for (t, what) in cand {
+        let d = t.dump();
+        match &d {
+            Err(e) if e.starts_with("panic") => {
+                // compiling this table panics: outside this property (C04/C05); never handed to add_table
+                st.count(&format!("pool.dump_table_panics.{}", what));
+                continue;
+            }
+            Ok(_) => st.count(&format!("pool.{}=ok", what)),
+            Err(e) => st.count(&format!("pool.{}=err.{}", what, e)),
+        }
+        pool.tables.push(t);
+        pool.dumps.push(d);
+        pool.what.push(what);
+    }
+    pool
 }
 
 /// What the real reader says about a file.
@@ -61,12 +223,26 @@ fn read_obs(file: &[u8], qtags: &[u32]) -> Result<ReaderObs, String> {
     })
 }
 
-/// Runs the ops on a real FontBuilder; returns (build output or panic, ordered_tags as reported).
-fn run_builder(ops: &[Op]) -> (Result<Vec<u8>, String>, Vec<u32>) {
+/// What the real builder did.
+#[derive(Default)]
+struct BuilderRun {
+    /// ordered_tags() right before build()
+    order: Vec<u32>,
+    /// (op index, add_table(..).is_ok())
+    table_ok: Vec<(usize, bool)>,
+    /// contains(probe) for every probe tag after every op
+    contains_after: Vec<Vec<bool>>,
+}
+
+/// Runs the ops on a real FontBuilder; returns build output (or the panic text) and the observations.
+fn run_builder(ops: &[Op], pool: &Arc<Pool>, probes: &[u32]) -> (Result<Vec<u8>, String>, BuilderRun) {
     let ops = ops.to_vec();
-    let r = catch(move || {
+    let pool = pool.clone();
+    let probes = probes.to_vec();
+    let r = catch(AssertUnwindSafe(move || {
+        let mut run = BuilderRun::default();
         let mut b = FontBuilder::new();
-        for op in &ops {
+        for (i, op) in ops.iter().enumerate() {
             match op {
                 Op::Add(t, d) => {
                     b.add_raw(tag(*t), d.clone());
@@ -75,14 +251,19 @@ fn run_builder(ops: &[Op]) -> (Result<Vec<u8>, String>, Vec<u32>) {
                     let f = FontRef::new(src).expect("copy source opens");
                     b.copy_missing_tables(f);
                 }
+                Op::Table(k) => {
+                    let ok = pool.tables[*k].add_to(&mut b);
+                    run.table_ok.push((i, ok));
+                }
             }
+            run.contains_after.push(probes.iter().map(|t| b.contains(tag(*t))).collect());
         }
-        let order: Vec<u32> = b.ordered_tags().into_iter().map(tag_u32).collect();
-        (b.build(), order)
-    });
+        run.order = b.ordered_tags().into_iter().map(tag_u32).collect();
+        (b.build(), run)
+    }));
     match r {
-        Ok((bytes, order)) => (Ok(bytes), order),
-        Err(e) => (Err(e), vec![]),
+        Ok((bytes, run)) => (Ok(bytes), run),
+        Err(e) => (Err(e), BuilderRun::default()),
     }
 }
 
@@ -116,12 +297,26 @@ fn own_slice(file: &[u8], off: u32, len: u32) -> Option<&[u8]> {
 }
 
 /// The final map the op sequence denotes, computed without the builder (BTreeMap of the harness).
-fn expected_map(ops: &[Op]) -> BTreeMap<u32, Vec<u8>> {
+fn expected_map(ops: &[Op], pool: &Pool) -> BTreeMap<u32, Vec<u8>> {
     let mut m: BTreeMap<u32, Vec<u8>> = BTreeMap::new();
     for op in ops {
+        apply_expected(&mut m, op, pool);
+    }
+    m
+}
+
+/// One op on the harness's own map: the property's reading of add_raw / add_table / copy_missing_tables.
+fn apply_expected(m: &mut BTreeMap<u32, Vec<u8>>, op: &Op, pool: &Pool) {
+    {
         match op {
             Op::Add(t, d) => {
                 m.insert(*t, d.clone());
+            }
+            // a table that compiles is supplied under its tag; one that does not was never supplied
+            Op::Table(k) => {
+                if let Ok(bytes) = &pool.dumps[*k] {
+                    m.insert(pool.tables[*k].tag(), bytes.clone());
+                }
             }
             Op::Copy(src) => {
                 if let Some((_, recs)) = own_directory(src) {
@@ -145,7 +340,6 @@ fn expected_map(ops: &[Op]) -> BTreeMap<u32, Vec<u8>> {
             }
         }
     }
-    m
 }
 
 fn expected_order(m: &BTreeMap<u32, Vec<u8>>) -> Vec<u32> {
@@ -285,6 +479,7 @@ fn oracle(m: &BTreeMap<u32, Vec<u8>>, file: &[u8], order_reported: &[u32], obs: 
 struct Gen {
     rng: Rng,
     thorough: bool,
+    pool: Arc<Pool>,
 }
 
 impl Gen {
@@ -369,16 +564,39 @@ impl Gen {
                 st.count("op.replace");
             }
         }
+        // typed tables through add_table: compiling ones and failing ones (all failure kinds of the pool),
+        // for tags that may or may not also be supplied raw / copied, anywhere in the sequence
+        if !self.pool.tables.is_empty() && self.rng.chance(2, 5) {
+            for _ in 0..1 + self.rng.below(3) {
+                let k = self.rng.below(self.pool.tables.len() as u64) as usize;
+                if big || self.pool.dumps[k].as_ref().map(|b| b.len() <= 64).unwrap_or(true) {
+                    ops.push(Op::Table(k));
+                    if self.rng.chance(1, 4) {
+                        // the same tag also supplied raw, before or after (shuffle decides)
+                        let t = self.pool.tables[k].tag();
+                        let l = if big { self.big_len() } else { self.small_len(t) };
+                        ops.push(Op::Add(t, self.gen_bytes(l)));
+                    }
+                }
+            }
+        }
         self.rng.shuffle(&mut ops);
         ops
     }
 }
 
-fn coq_ops(ops: &[Op]) -> String {
+fn coq_ops(ops: &[Op], pool: &Pool) -> String {
     clist(ops.iter(), |o| match o {
         Op::Add(t, d) => format!("(0, {}, {})", t, cbytes(d)),
         Op::Copy(src) => format!("(1, 0, {})", cbytes(src)),
+        Op::Table(k) => match &pool.dumps[*k] {
+            Ok(bytes) => format!("(3, {}, {})", pool.tables[*k].tag(), cbytes(bytes)),
+            Err(_) => format!("(4, {}, [])", pool.tables[*k].tag()),
+        },
     })
+}
+fn coq_probes(probes: &[u32], vals: &[bool]) -> String {
+    clist(probes.iter().zip(vals.iter()), |(t, b)| format!("({}, {})", t, cbool(*b)))
 }
 fn coq_obs(o: &ReaderObs) -> String {
     format!(
@@ -405,9 +623,76 @@ fn absent_probes(rng: &mut Rng, m: &BTreeMap<u32, Vec<u8>>) -> Vec<u32> {
 /// One builder case: run, observe, oracle, (optionally) emit to the model shards.
 fn builder_case(g: &mut Gen, ops: Vec<Op>, to_model: bool, st: &mut Stats, cw: &mut CaseWriter, key: &str) -> Option<Vec<u8>> {
     st.evaluations += 1;
-    let m = expected_map(&ops);
-    let (built, order) = run_builder(&ops);
+    let pool = g.pool.clone();
+    let m = expected_map(&ops, &pool);
+    // tags whose presence is asked of the real builder (`contains`) after every op
+    let mut probes: Vec<u32> = vec![];
+    for op in &ops {
+        match op {
+            Op::Add(t, _) => probes.push(*t),
+            Op::Table(k) => probes.push(pool.tables[*k].tag()),
+            Op::Copy(src) => probes.extend(own_directory(src).map(|x| x.1.iter().map(|r| r.0).collect::<Vec<_>>()).unwrap_or_default()),
+        }
+    }
+    probes.extend(["gasp", "maxp", "name", "head", "hhea"].iter().map(|t| u32::from_be_bytes(t.as_bytes().try_into().unwrap())));
+    probes.push(g.rng.next_u32());
+    probes.sort();
+    probes.dedup();
+    if probes.len() > 24 {
+        g.rng.shuffle(&mut probes);
+        probes.truncate(24);
+        probes.sort();
+    }
+    let (built, run) = run_builder(&ops, &pool, &probes);
+    let order = run.order.clone();
     let n = m.len();
+    // add_table must answer Ok exactly when the table compiles, and — whatever it answers — the builder must
+    // hold exactly the tags supplied so far: checked after EVERY op against the harness's own map
+    {
+        for (i, ok) in &run.table_ok {
+            if let Op::Table(k) = &ops[*i] {
+                let want = pool.dumps[*k].is_ok();
+                st.count(&match &pool.dumps[*k] {
+                    Ok(_) => "op.add_table_ok".to_string(),
+                    Err(e) => format!("op.add_table_err.{}", e),
+                });
+                if *ok != want {
+                    st.oracle_failure(json!({"key": format!("add_table-result:{}", pool.what[*k]), "why": format!("add_table returned is_ok()={} but dump_table of the same table is_ok()={}", ok, want), "case": key}));
+                }
+            }
+        }
+        let mut em: BTreeMap<u32, Vec<u8>> = BTreeMap::new();
+        for (i, op) in ops.iter().enumerate() {
+            if let Op::Table(k) = op {
+                if pool.dumps[*k].is_err() {
+                    st.count(if em.contains_key(&pool.tables[*k].tag()) { "branch.add_table_err_tag_already_present" } else { "branch.add_table_err_fresh_tag" });
+                    if !em.contains_key(&pool.tables[*k].tag()) && ops[i + 1..].iter().any(|o| matches!(o, Op::Copy(src) if own_directory(src).map(|x| x.1.iter().any(|r| r.0 == pool.tables[*k].tag())).unwrap_or(false))) {
+                        st.count("branch.add_table_err_fresh_tag_then_copy_source_has_tag");
+                    }
+                }
+            }
+            apply_expected(&mut em, op, &pool);
+            if let Some(got) = run.contains_after.get(i) {
+                for (t, c) in probes.iter().zip(got.iter()) {
+                    if *c != em.contains_key(t) {
+                        let what = match op {
+                            Op::Add(..) => "add_raw".to_string(),
+                            Op::Copy(_) => "copy_missing_tables".to_string(),
+                            Op::Table(k) => format!("add_table({}: {})", pool.what[*k], if pool.dumps[*k].is_ok() { "compiles" } else { "fails" }),
+                        };
+                        st.oracle_failure(json!({
+                            "key": format!("contains-after-{}", what),
+                            "why": format!("after op #{} = {}, contains({}) = {} but the tag was {} supplied", i, what, tag_str(*t), c, if em.contains_key(t) { "" } else { "never (successfully)" }),
+                            "case": key,
+                        }));
+                        break;
+                    }
+                }
+            }
+        }
+        st.add("contains_probes_checked", (run.contains_after.len() * probes.len()) as u64);
+    }
+    let final_contains: Vec<bool> = run.contains_after.last().cloned().unwrap_or_else(|| probes.iter().map(|_| false).collect());
     st.count(&format!("ntables.{}", if n <= 6 { n.to_string() } else if n <= 64 { "7-64".into() } else { "65+".into() }));
     for (t, d) in &m {
         st.count(&format!("len_mod4.{}", d.len() % 4));
@@ -429,7 +714,7 @@ fn builder_case(g: &mut Gen, ops: Vec<Op>, to_model: bool, st: &mut Stats, cw: &
                 st.oracle_failure(json!({"key": format!("build-panic:{}", key), "why": format!("build panicked: {}", e), "ntables": n}));
             }
             if to_model {
-                cw.push(format!("({}, None, (false, [], [], []))", coq_ops(&ops)));
+                cw.push(format!("({}, [], None, (false, [], [], []))", coq_ops(&ops, &pool)));
             }
             return None;
         }
@@ -458,7 +743,7 @@ fn builder_case(g: &mut Gen, ops: Vec<Op>, to_model: bool, st: &mut Stats, cw: &
     // insertion order irrelevance on the real code: same final map, fresh random order, plain adds
     let mut again: Vec<Op> = m.iter().map(|(t, d)| Op::Add(*t, d.clone())).collect();
     g.rng.shuffle(&mut again);
-    let (b2, _) = run_builder(&again);
+    let (b2, _) = run_builder(&again, &pool, &[]);
     if b2.as_ref().ok() != Some(&file) {
         st.oracle_failure(json!({"key": format!("{}:order-dependence", key), "why": "same final map added in a different order builds different bytes", "ntables": n}));
     }
@@ -468,7 +753,7 @@ fn builder_case(g: &mut Gen, ops: Vec<Op>, to_model: bool, st: &mut Stats, cw: &
         st.nontrivial(&format!("{:?}", m));
     }
     if to_model {
-        cw.push(format!("({}, Some {}, {})", coq_ops(&ops), cbytes(&file), coq_obs(&obs)));
+        cw.push(format!("({}, {}, Some {}, {})", coq_ops(&ops, &pool), coq_probes(&probes, &final_contains), cbytes(&file), coq_obs(&obs)));
         st.sample(json!({"tables": m.iter().map(|(t, d)| json!({"tag": tag_str(*t), "len": d.len()})).collect::<Vec<_>>(), "file_len": file.len(), "order": order.iter().map(|t| tag_str(*t)).collect::<Vec<_>>()}));
     }
     Some(file)
@@ -581,7 +866,7 @@ fn reader_case(rng: &mut Rng, file: Vec<u8>, st: &mut Stats, cw: &mut CaseWriter
             for (_, d) in &o.queries {
                 st.count(if d.is_some() { "reader.table_data_some" } else { "reader.table_data_none" });
             }
-            cw.push(format!("([(2, 0, {})], Some {}, {})", cbytes(&file), cbytes(&file), coq_obs(&o)));
+            cw.push(format!("([(2, 0, {})], [], Some {}, {})", cbytes(&file), cbytes(&file), coq_obs(&o)));
             Some(o)
         }
         Err(e) => {
@@ -604,9 +889,11 @@ fn main() {
         "From Coq Require Import ZArith List. Import ListNotations. Open Scope Z_scope.\nFrom FV Require Import Lib.Cases C06.Model.",
         "case",
         "check_case",
-        if thorough { 400 } else { 160 },
+        if thorough { 400 } else { 170 },
     );
-    let mut g = Gen { rng: Rng::new(seed), thorough };
+    let mut rng0 = Rng::new(seed);
+    let tpool = Arc::new(make_pool(&mut rng0, &mut st));
+    let mut g = Gen { rng: rng0, thorough, pool: tpool.clone() };
     let n_model = if thorough { 24_000 } else { 2_000 };
     let n_big = if thorough { 20_000 } else { 1_500 };
     let n_malformed = if thorough { 6_000 } else { 500 };
@@ -623,6 +910,19 @@ fn main() {
     ];
     for (i, ops) in fixed.into_iter().enumerate() {
         builder_case(&mut g, ops, true, &mut st, &mut cw, &format!("fixed{}", i));
+    }
+    // every typed table of the pool once on its own, once over a raw table with its tag, and once before a
+    // copy from a font that has its tag (built here from raw bytes)
+    for k in 0..tpool.tables.len() {
+        let t = tpool.tables[k].tag();
+        let small = tpool.dumps[k].as_ref().map(|b| b.len() <= 64).unwrap_or(true);
+        builder_case(&mut g, vec![Op::Add(u32::from_be_bytes(*b"FOO "), vec![1, 2, 3]), Op::Table(k)], small, &mut st, &mut cw, &format!("typed-alone:{}", tpool.what[k]));
+        builder_case(&mut g, vec![Op::Add(t, vec![5; 7]), Op::Table(k), Op::Add(DSIG, vec![])], small, &mut st, &mut cw, &format!("typed-over-raw:{}", tpool.what[k]));
+        let (src, _) = run_builder(&[Op::Add(t, vec![9, 8, 7, 6, 5]), Op::Add(u32::from_be_bytes(*b"FOO "), vec![4; 5])], &tpool, &[]);
+        if let Ok(src) = src {
+            builder_case(&mut g, vec![Op::Table(k), Op::Copy(src.clone())], small, &mut st, &mut cw, &format!("typed-then-copy:{}", tpool.what[k]));
+            builder_case(&mut g, vec![Op::Copy(src), Op::Table(k)], small, &mut st, &mut cw, &format!("copy-then-typed:{}", tpool.what[k]));
+        }
     }
 
     // ---- random small fonts: model + oracle ----
@@ -676,6 +976,11 @@ fn main() {
                 match op {
                     Op::Add(t, d) => {
                         m.insert(*t, d.clone());
+                    }
+                    Op::Table(k) => {
+                        if let Ok(b) = &tpool.dumps[*k] {
+                            m.insert(tpool.tables[*k].tag(), b.clone());
+                        }
                     }
                     Op::Copy(src) => {
                         for (t, _, off, len) in own_directory(src).map(|x| x.1).unwrap_or_default() {
@@ -754,14 +1059,14 @@ fn main() {
     {
         // descending tags: every add_raw / sort insertion of the model then hits the front of its list (linear total cost)
         let ops: Vec<Op> = (0..4096u32).rev().map(|i| Op::Add(0x4100_0000 + i, vec![])).collect();
-        let (built, _) = run_builder(&ops);
+        let (built, _) = run_builder(&ops, &tpool, &[]);
         st.evaluations += 1;
         st.v.insert("build_with_4096_tables".into(), match &built {
             Ok(f) => json!({"built_bytes": f.len()}),
             Err(e) => json!({"panics": e}),
         });
         // same case for the model: it must predict the panic (or the bytes) as well
-        cw.push(format!("({}, {}, (false, [], [], []))", coq_ops(&ops), match &built {
+        cw.push(format!("({}, [], {}, (false, [], [], []))", coq_ops(&ops, &tpool), match &built {
             Ok(_) => "Some []".to_string(),
             Err(_) => "None".to_string(),
         }));
